@@ -14,6 +14,8 @@ BaseCol == [key |-> A, regex |-> FALSE, required |-> TRUE, default |-> NA, coerc
 BaseSchema == [cols |-> <<>>, index |-> NoIndex, strict |-> "no", ordered |-> FALSE, ucn |-> FALSE,
                addmiss |-> FALSE, unique |-> <<>>, report |-> "exclude_first", coerce |-> FALSE,
                checks |-> <<>>, drop |-> FALSE]
+BaseIndex == [dtype |-> "none", nullable |-> FALSE, unique |-> FALSE, report |-> "exclude_first",
+              name |-> NA, checks |-> <<>>, coerce |-> FALSE]
 IntCol(lab, cells) == [name |-> lab, pd |-> "int64", cells |-> cells]
 DefaultIdx(n) == [ i \in 1..n |-> iv(i - 1) ]
 Mk(cols, idx) == [cols |-> cols, idx |-> idx, idxpd |-> "int64", idxname |-> NA]
@@ -27,9 +29,9 @@ CCols == { [BaseCol EXCEPT !.key = kk[1], !.regex = kk[2], !.required = r, !.dty
 CColSeqs == { <<c>> : c \in CCols } \cup { p \in CCols \X CCols : p[1].key # p[2].key }
 InitContainer ==
   \E n \in 0..MaxCols : \E labs \in [1..n -> CLabels] :
-  \E cs \in CColSeqs : \E st \in {"no", "yes"} : \E od \in BOOLEAN : \E u \in BOOLEAN : \E lz \in BOOLEAN :
-     InitWith([BaseSchema EXCEPT !.cols = cs, !.strict = st, !.ordered = od, !.ucn = u],
-              Mk([ i \in 1..n |-> IntCol(labs[i], <<iv(1)>>) ], DefaultIdx(1)), lz)
+  \E cs \in CColSeqs : \E sf \in {"no", "yes"} : \E od \in BOOLEAN : \E u \in BOOLEAN : \E lz \in BOOLEAN :
+     st = Start([BaseSchema EXCEPT !.cols = cs, !.strict = sf, !.ordered = od, !.ucn = u],
+              Mk([ i \in 1..n |-> IntCol(labs[i], <<iv(1)>>) ], DefaultIdx(1)), lz, FALSE, AsIs)
 
 ---------------------------------------------------------------------------
 (* columns: several simultaneous row-level violations in two columns *)
@@ -43,11 +45,11 @@ InitColumns ==
   \E ix \in (IF la = A THEN {DefaultIdx(2), <<iv(20), iv(10)>>} ELSE {DefaultIdx(2)}) :
   \E ka \in ColAChecks : \E ua \in BOOLEAN :
   \E kb \in ColBChecks : \E nb \in BOOLEAN : \E db \in {"float64", "int64"} : \E lz \in BOOLEAN :
-     InitWith([BaseSchema EXCEPT !.cols =
+     st = Start([BaseSchema EXCEPT !.cols =
                  << [BaseCol EXCEPT !.key = la, !.dtype = "int64", !.checks = ka, !.unique = ua],
                     [BaseCol EXCEPT !.key = B, !.dtype = db, !.nullable = nb, !.checks = kb] >>],
               [cols |-> << IntCol(la, ca), [name |-> B, pd |-> "float64", cells |-> cb] >>,
-               idx |-> ix, idxpd |-> "int64", idxname |-> NA], lz)
+               idx |-> ix, idxpd |-> "int64", idxname |-> NA], lz, FALSE, AsIs)
 
 ---------------------------------------------------------------------------
 (* joint uniqueness *)
@@ -56,17 +58,15 @@ InitJoint ==
   \E ix \in {DefaultIdx(3), <<iv(30), iv(10), iv(20)>>} :
   \E un \in { <<A, B>>, <<A>>, <<B>>, <<A, AB>> } : \E rp \in {"exclude_first", "exclude_last", "all"} :
   \E lz \in BOOLEAN :
-     InitWith([BaseSchema EXCEPT !.cols =
+     st = Start([BaseSchema EXCEPT !.cols =
                  << [BaseCol EXCEPT !.key = A, !.dtype = "int64"],
                     [BaseCol EXCEPT !.key = B, !.dtype = "float64", !.nullable = TRUE] >>,
                  !.unique = un, !.report = rp],
               [cols |-> << IntCol(A, ca), [name |-> B, pd |-> "float64", cells |-> cb] >>,
-               idx |-> ix, idxpd |-> "int64", idxname |-> NA], lz)
+               idx |-> ix, idxpd |-> "int64", idxname |-> NA], lz, FALSE, AsIs)
 
 ---------------------------------------------------------------------------
 (* index component *)
-BaseIndex == [dtype |-> "none", nullable |-> FALSE, unique |-> FALSE, report |-> "exclude_first",
-              name |-> NA, checks |-> <<>>]
 IndexSchemas ==
   { [BaseIndex EXCEPT !.dtype = d, !.unique = u, !.name = nm, !.checks = cs] :
       d \in {"none", "int64", "str"}, u \in BOOLEAN, nm \in {NA, A},
@@ -74,17 +74,50 @@ IndexSchemas ==
 InitIndex ==
   \E n \in 0..3 : \E ix \in [1..n -> {iv(0), iv(10), iv(20)}] : \E inm \in {NA, A, B} :
   \E isch \in IndexSchemas : \E lz \in BOOLEAN :
-     InitWith([BaseSchema EXCEPT !.cols = << [BaseCol EXCEPT !.key = A, !.dtype = "int64",
+     st = Start([BaseSchema EXCEPT !.cols = << [BaseCol EXCEPT !.key = A, !.dtype = "int64",
                                                      !.checks = <<Chk("lt", <<iv(2)>>)>>] >>,
                                   !.index = isch],
               [cols |-> << IntCol(A, [ i \in 1..n |-> iv(i) ]) >>, idx |-> ix, idxpd |-> "int64",
-               idxname |-> inm], lz)
+               idxname |-> inm], lz, FALSE, AsIs)
+
+---------------------------------------------------------------------------
+(* parse: add_missing_columns, strict="filter", defaults, coercion (C03, C04) *)
+PZ == sv(6)   \* "xb": never declared
+PC == AB      \* "ab": declared, often absent
+PCells(lab, v) == CASE lab = A  -> (IF v = 1 THEN [name |-> A, pd |-> "int64", cells |-> <<iv(1), iv(2)>>]
+                                    ELSE [name |-> A, pd |-> "object", cells |-> <<sv(10), sv(2)>>])
+                    [] lab = B  -> (IF v = 1 THEN [name |-> B, pd |-> "float64", cells |-> <<fv(2), NA>>]
+                                    ELSE [name |-> B, pd |-> "int64", cells |-> <<iv(1), iv(0)>>])
+                    [] lab = PC -> [name |-> PC, pd |-> "float64", cells |-> <<fv(1), fv(1)>>]
+                    [] lab = PZ -> [name |-> PZ, pd |-> "int64", cells |-> <<iv(0), iv(0)>>]
+PLabelSeqs == { <<A>>, <<A, B>>, <<B, A>>, <<PZ, A, B>>, <<A, PZ>>, <<A, B, PC>>, <<B>>, <<A, PZ, B>>, <<PC, A>> }
+InitParse ==
+  \E labs \in PLabelSeqs : \E va \in {1, 2} : \E vb \in {1, 2} :
+  \E ix \in (IF Rich THEN { <<"int64", DefaultIdx(2)>>, <<"float64", <<fv(2), fv(4)>>>> }
+              ELSE { <<"float64", <<fv(2), fv(4)>>>> }) :
+  \E ca \in BOOLEAN : \E db \in {NA, fv(1)} : \E nb \in BOOLEAN : \E rb \in (IF Rich THEN BOOLEAN ELSE {TRUE}) :
+  \E cc \in { <<NA, TRUE, <<>>>>, <<fv(1), FALSE, <<>>>>, <<NA, FALSE, <<>>>>,
+              <<fv(1), FALSE, <<Chk("ge", <<iv(1)>>)>>>> } :      \* a default that fails the column's own check
+  \E sf \in {"no", "yes", "filter"} : \E od \in (IF Rich THEN BOOLEAN ELSE {FALSE}) : \E am \in BOOLEAN : \E sc \in BOOLEAN :
+  \E isch \in { NoIndex, [BaseIndex EXCEPT !.dtype = "int64"], [BaseIndex EXCEPT !.dtype = "int64", !.coerce = TRUE] } :
+  \E lz \in BOOLEAN : \E ip \in (IF Rich THEN BOOLEAN ELSE {FALSE}) :
+     st = Start([BaseSchema EXCEPT
+                   !.cols = << [BaseCol EXCEPT !.key = A, !.dtype = "int64", !.coerce = ca,
+                                               !.checks = <<Chk("ge", <<iv(1)>>)>>],
+                                [BaseCol EXCEPT !.key = B, !.dtype = "float64", !.default = db,
+                                               !.nullable = nb, !.required = rb],
+                                [BaseCol EXCEPT !.key = PC, !.dtype = "float64", !.default = cc[1],
+                                               !.nullable = cc[2], !.checks = cc[3]] >>,
+                   !.strict = sf, !.ordered = od, !.addmiss = am, !.coerce = sc, !.index = isch],
+                [cols |-> [ i \in 1..Len(labs) |-> PCells(labs[i], IF labs[i] = A THEN va ELSE vb) ],
+                 idx |-> ix[2], idxpd |-> ix[1], idxname |-> NA], lz, ip, AsIs)
 
 Init == CASE SliceName = "container" -> InitContainer
+          [] SliceName = "parse"     -> InitParse
           [] SliceName = "columns"   -> InitColumns
           [] SliceName = "joint"     -> InitJoint
           [] SliceName = "index"     -> InitIndex
-Spec == Init /\ [][Next]_vars
+Spec == Init /\ [][Next]_st
 
 ---------------------------------------------------------------------------
 ASSUME PrintT(ToJson([kind |-> "header", strtable |-> StrTable, retable |-> ReTable]))
@@ -95,11 +128,21 @@ Devs(schema, frame) ==
   \cup (IF IndexErrorsIdeal(schema, frame) # IndexErrorsByPosition(schema, frame)
         THEN {"IndexFailureCasesByPosition"} ELSE {})
 
-Emit ==
-  (pc = "done" /\ lazy) =>
-     PrintT(ToJson([kind |-> "frame", slice |-> SliceName, schema |-> S, data |-> inp0,
-                    expect |-> [sat |-> FrameSat(S, inp0),
-                                errors |-> FrameErrors(S, inp0),
-                                errors_asis |-> FrameErrorsAsIs(S, inp0),
-                                devs |-> Devs(S, inp0)]]))
+Predict(s) == [kind |-> s.out.kind,
+               returned |-> IF s.out.kind = "ok" THEN s.out.returned ELSE [none |-> TRUE],
+               errors |-> IF s.out.kind = "ok" THEN <<>> ELSE s.out.errors,
+               input_after |-> s.inp]
+EmitPlain ==
+  (st.pc = "done" /\ st.lazy) =>
+     PrintT(ToJson([kind |-> "frame", slice |-> SliceName, schema |-> st.S, data |-> st.inp0,
+                    expect |-> [sat |-> FrameSat(st.S, st.inp0),
+                                errors |-> FrameErrors(st.S, st.inp0),
+                                errors_asis |-> FrameErrorsAsIs(st.S, st.inp0),
+                                devs |-> Devs(st.S, st.inp0)]]))
+EmitParse ==
+  st.pc = "done" =>
+     PrintT(ToJson([kind |-> "frame_run", slice |-> SliceName, schema |-> st.S, data |-> st.inp0,
+                    opts |-> [lazy |-> st.lazy, inplace |-> st.inplace],
+                    expect |-> Predict(st), devs |-> {}]))
+Emit == IF SliceName = "parse" THEN EmitParse ELSE EmitPlain
 =============================================================================
